@@ -982,8 +982,12 @@ def remap_by_types(
             # type is for that value of the dict.
             if isinstance(t_node.value, ast.Dict):
                 key = t_node.attr
+                # Only a constant key can name the attribute (a key like -1 or (1, 2) is not a
+                # Constant node)
                 key_index = [
-                    e for e, k in enumerate(t_node.value.keys) if k.value == key  # type: ignore
+                    e
+                    for e, k in enumerate(t_node.value.keys)
+                    if isinstance(k, ast.Constant) and k.value == key
                 ]
                 if len(key_index) == 0:
                     if t_node.attr.lower() == "zip":
